@@ -628,9 +628,28 @@ class StrEval:
         numeric = bool(spec) and spec[-1:] in "dxXofeEgGn"
         return Hole(node, fc, spec=spec, numeric=numeric)
 
+    def _tuple_items(self, e, fc, env, depth=0):
+        """[(abstract value, node)] of a tuple-valued expression: a literal, a concatenation of tuples, or a local bound once to one"""
+        if depth > 6:
+            return None
+        if isinstance(e, ast.Tuple) and not any(isinstance(x, ast.Starred) for x in e.elts):
+            return [(self.eval(x, fc, env), x) for x in e.elts]
+        if isinstance(e, ast.BinOp) and isinstance(e.op, ast.Add):
+            l, r = self._tuple_items(e.left, fc, env, depth + 1), self._tuple_items(e.right, fc, env, depth + 1)
+            return l + r if l is not None and r is not None else None
+        if isinstance(e, ast.Name):
+            defs = [n.value for n in ast.walk(fc.fn.node) if isinstance(n, ast.Assign) and len(n.targets) == 1
+                    and isinstance(n.targets[0], ast.Name) and n.targets[0].id == e.id]
+            if len(defs) == 1:
+                return self._tuple_items(defs[0], fc, env, depth + 1)
+        return None
+
     def _percent(self, tmpl, right, fc, env, node):
-        rv = self.eval(right, fc, env)
-        if isinstance(rv, tuple) and rv and rv[0] == "tuple":
+        items = self._tuple_items(right, fc, env) if isinstance(right, (ast.BinOp, ast.Name)) else None
+        rv = ("tuple", [v for v, _n in items]) if items is not None else self.eval(right, fc, env)
+        if items is not None:
+            args = list(items)
+        elif isinstance(rv, tuple) and rv and rv[0] == "tuple":
             args = list(zip(rv[1], right.elts))
         elif isinstance(rv, tuple) and rv and rv[0] == "dict":
             return self._percent_map(tmpl, rv, fc, node)
